@@ -166,6 +166,8 @@ def setter_families(run, with_rt=False, inv=("AllWellFormed", "AllGettersOk")):
     fams.append(ApiFamily("newurl_d2", ["<newurl>"], ALL_SETTER_OPS, depth=3, with_rt=False))
     if not q:
         fams.append(ApiFamily("set_d3_sub", r.sample(STARTS_ALL, 8), sub_ops(run.seed, "d3", 2), depth=4, invariants=inv, with_rt=with_rt))
+        fams.append(ApiFamily("set_d3_sub3", r.sample(STARTS_ALL, 5), sub_ops(run.seed, "d3b", 3), depth=4, invariants=inv, with_rt=with_rt))
+        fams.append(ApiFamily("set_d4_sub1", r.sample(STARTS_ALL, 6), sub_ops(run.seed, "d4", 1), depth=5, invariants=inv, with_rt=with_rt))
     return fams
 
 
@@ -475,8 +477,8 @@ def check_c06(run):
     for f in evf:
         if q and f.name in ("struct", "path"):
             f.maxlen = 3
-        if not q and f.name == "struct":
-            f.maxlen = 4
+        if not q and f.name in ("struct", "path"):
+            f.maxlen = 4       # a law event carries ~25 results (~30 KB): length 5 would be several GB of events
     run_event_families(run, evf, "law")
     run.assumptions.append("the laws are evaluated by TLC on values observed from the real code only (no oracle involved), after TLC has established them as invariants of the specification")
     return run.finish("model_checking", "for every (input, base) of the families: the three entry points, Href(u) against 7 bases, '', '#f', '?q' and 12 scheme-less "
@@ -906,6 +908,51 @@ def check_c16(run):
         mine = [(dict(ev, k="trace", opt=pn, **{"in": ev.get("a", [])}), [v for v in vs if not v.startswith("C03")]) for ev, vs in bad]
         absorb_events(run, [(e, v) for e, v in mine if v], "option-traces")
     run.samples.append("[T-mode] histories recorded on parsers built with special-scheme tables / replaced percent-encode sets, validated by TLC against UrlApi.tla with POpts = the option record")
+    # the relaxing options on whole HISTORIES: the specification models each of them exactly, but C16 demands only neutrality outside the trigger, so a
+    # mismatch is a violation only when no input of the history so far contains the trigger (over-approximated, so that nothing is demanded that
+    # the property does not state); a mismatch after a triggering input - and any mismatch for the options C16 does not constrain (skip-trailing-slash,
+    # the host functions) - is reported as a NOTE on the drift between specification and code and does not affect the verdict
+    import re as _re
+    def _texts(ev):
+        out = [ev.get("a") or [], ev.get("b") or []] + list(ev.get("bs") or [])
+        return [[c for c in t if c not in (9, 10, 13)] for t in out]
+    def _hex(c):
+        return 48 <= c <= 57 or 65 <= c <= 70 or 97 <= c <= 102
+    TRIG = {
+        "collapse": lambda t: any(t[i] in (47, 92) and t[i + 1] in (47, 92) for i in range(len(t) - 1)),
+        "single_pct": lambda t: any(t[i] == 37 and not (i + 2 < len(t) and _hex(t[i + 1]) and _hex(t[i + 2])) for i in range(len(t))),
+        "skip_drive": lambda t: 124 in t,
+        "accept_invalid": lambda t: any(c >= 0x110000 or c == 0xFFFD for c in t),
+    }
+    def _history_triggered(ev, trig):
+        f, i = ev["_src"]
+        lines = open(f).read().splitlines()
+        k = i - 1
+        while k >= 0:
+            e = json.loads(lines[k])
+            if e.get("op") == "reset":
+                break
+            if any(trig(t) for t in _texts(e)):
+                return True
+            k -= 1
+        return False
+    neutral_t = list(TRIG) if not q else r_.sample(list(TRIG), 1)
+    notes_only = [] if q else ["skip_trailing", "pre_host_trim", "pre_host_const", "post_host_const"]
+    drift = 0
+    for i, pn in enumerate(neutral_t + notes_only):
+        bad, nev = run.record_and_validate(1200 if q else 8000, seed_salt=180 + i, parser=pn, parse_only=40)
+        for ev, vs in bad:
+            vs = [v for v in vs if not v.startswith("C03")]
+            if not vs:
+                continue
+            if pn in TRIG and not _history_triggered(ev, TRIG[pn]):
+                e2 = dict(ev, k="trace", opt=pn, **{"in": ev.get("a", [])})
+                absorb_events(run, [(e2, ["neutrality on a recorded history (no input so far contains the trigger of %s): %s" % (pn, v) for v in vs])], "option-histories")
+            else:
+                drift += 1
+                print("NOTE: specification and code differ under option %s on a %s event (not demanded by C16): %s" % (pn, ev.get("op"), vs[0][:120]))
+    run.coverage_notes["option_history_parsers"] = neutral_t + notes_only
+    run.coverage_notes["spec_drift_notes"] = drift
     # skip-equals: exact, through the list machine with the SkipEquals deviation switched on in both the spec and the real parser
     names = ["", "a", "b"]
     values = ["", "1"]
